@@ -1,5 +1,5 @@
 #!/bin/bash
-# tools/sweep_harmless.sh: behaviour-preserving refactorings from /tmp/harm/out-N/patchK.diff, each applied to /repo,
+# tools/sweep_harmless.sh: behaviour-preserving refactorings /verif/harmless/HN-K/patch.diff (written by sub-agents that saw no part of /verif), each applied to /repo,
 # the checks of its area + C17/C18 run (quick), undone. Any VIOLATION here is a false alarm of the machinery.
 declare -A AREA
 AREA[1]="C01 C02 C03 C06 C08 C09 C17 C18"
@@ -9,7 +9,7 @@ AREA[4]="C08 C09 C10 C01 C02 C17 C18"
 AREA[5]="C15 C16 C20 C12 C17 C18"
 for n in ${@:-1 2 3 4 5}; do
   for k in 1 2 3 4 5 6; do
-    f=/tmp/harm/out-$n/patch$k.diff
+    f=/verif/harmless/H$n-$k/patch.diff
     [ -f $f ] || { echo "harm $n-$k: no patch"; continue; }
     cd /repo && git diff --quiet || { echo "/repo dirty"; exit 3; }
     git -C /repo apply $f 2>/dev/null || { echo "harm $n-$k: patch does not apply"; continue; }
@@ -17,7 +17,7 @@ for n in ${@:-1 2 3 4 5}; do
     for p in ${AREA[$n]}; do
       out=$(cd /verif && timeout 1200 ./check $p --tier quick 2>&1 | tail -3)
       v=$(echo "$out" | grep -E 'VIOLATION|MACHINERY' | head -1 | sed 's/replay=[^ ]*//')
-      [ -n "$v" ] && { res="$res [$p: $v]"; cp /verif/evidence/replays/${p}_quick_seed0.json /tmp/harm/replay_${n}_${k}_$p.json 2>/dev/null; }
+      [ -n "$v" ] && { res="$res [$p: $v]"; }
     done
     git -C /repo checkout -- . ; git -C /repo clean -qfd fastavro
     echo "harm $n-$k: ${res:-all clean}"
